@@ -339,6 +339,15 @@ func GroupByIWithContext[T any, K comparable](iteratee func(ctx context.Context,
 			groups := sync.Map{}
 			i := int64(0)
 
+			// clearGroups empties the map in place: replacing the sync.Map value would race with a source
+			// callback that is inside Load/Store (the teardown may run on another goroutine).
+			clearGroups := func() {
+				groups.Range(func(key, _ any) bool {
+					groups.Delete(key)
+					return true
+				})
+			}
+
 			notifyAll := func(cb func(Observer[T])) {
 				groups.Range(func(key, value any) bool {
 					cb(value.(Observer[T])) //nolint:errcheck,forcetypeassert
@@ -368,13 +377,13 @@ func GroupByIWithContext[T any, K comparable](iteratee func(ctx context.Context,
 						notifyAll(func(o Observer[T]) { o.ErrorWithContext(ctx, err) })
 						destination.ErrorWithContext(ctx, err)
 
-						groups = sync.Map{}
+						clearGroups()
 					},
 					func(ctx context.Context) {
 						destination.CompleteWithContext(ctx)
 						notifyAll(func(o Observer[T]) { o.CompleteWithContext(ctx) })
 
-						groups = sync.Map{}
+						clearGroups()
 					},
 				),
 			)
@@ -383,7 +392,7 @@ func GroupByIWithContext[T any, K comparable](iteratee func(ctx context.Context,
 				sub.Unsubscribe()
 				notifyAll(func(o Observer[T]) { o.CompleteWithContext(context.TODO()) })
 
-				groups = sync.Map{}
+				clearGroups()
 			}
 		})
 	}
